@@ -149,8 +149,10 @@ class IG:
         return '{ ' + txt + ' }', m
     def lst(s, T):
         r = s.r; items = []; nitems = 0
-        if not hasattr(s, 'touched'): s.touched = set()
+        if not hasattr(s, 'touched'): s.touched = set(); s.keepalive = []
         touched = s.touched
+        keep = s.keepalive          # objects whose id() is in `touched` stay referenced: a freed object's id can be reused by a new one,
+                                    # which made generation depend on the allocator (Hypothesis: FlakyStrategyDefinition, 2 in 10,000 examples)
         def has_touched(m):
             if id(m) in touched: return True
             if isinstance(m, list): return any(has_touched(x) for x in m)
@@ -165,8 +167,8 @@ class IG:
                 while len(m) <= i: m.append(zero(A.el))
         def setsub(fr, pos, val):
             A, m = fr[0], fr[2]; key, d, ty = subs(A)[pos]
-            touched.add(id(m))
-            if isinstance(val, (list, dict)): touched.add(id(val))
+            touched.add(id(m)); keep.append(m)
+            if isinstance(val, (list, dict)): touched.add(id(val)); keep.append(val)
             if isinstance(A, Ar): ensure_len(fr, key); m[key] = val
             elif A.union: m['u'] = pos; m['v'] = val
             else: m[key] = val
@@ -228,7 +230,7 @@ class IG:
                             def mark(x):
                                 # the copies are initialised objects too: a later braced item for them would be a D54 override
                                 if isinstance(x, (list, dict)):
-                                    touched.add(id(x))
+                                    touched.add(id(x)); keep.append(x)
                                     for y in (x if isinstance(x, list) else x.values()):
                                         mark(y)
                             for q in range(target_pos + 1, rng_hi + 1):
